@@ -838,6 +838,11 @@ def holdsC13 (h : History) (tr : ImplTrace) : Verdict := Id.run do
           poisoned := some "Stabilising"
     | .dropAll =>
       if !(rec_.api.startsWith "ok") then return some s!"action {idx}: dropping everything answered `{rec_.api}`"
+      -- between the drop of the engine state and the drop of the observer handles every read must fail:
+      -- nothing of a (possibly half-updated) graph may be handed out
+      for (o, r) in rec_.reads do
+        if r.startsWith "ok" then
+          return some s!"action {idx}: observer o{o} answered `{r}` after the engine state had been dropped"
     | _ => pure ()
     -- reads after the poisoning
     match poisoned, a with
@@ -884,6 +889,7 @@ def holdsC14 (h : History) (tr : ImplTrace) : Verdict := Id.run do
   let mut idx := 0
   let mut wasInvalidated : List Nat := []      -- experts invalidated on purpose (xinval)
   let mut pendingStale : List Nat := []        -- experts that were told `make_stale` and have not recomputed since
+  let mut viaCell : List Nat := []       -- expert nodes with a dependency named through a shared cell
   -- the value check needs cutoffs that only suppress equal values (otherwise stale sums are legitimate)
   -- a `map_with_old` machine that reports "unchanged" whatever happens (`flag 0`) suppresses unequal values like
   -- `Cutoff::Always`: stale sums downstream of it are legitimate
@@ -951,7 +957,9 @@ def holdsC14 (h : History) (tr : ImplTrace) : Verdict := Id.run do
                             | some (pd, _) => x.deps.filter (·.1 != pd)
                             | none => x.deps
                           { x with deps := deps ++ [(d, t, cb)], sel := some (d, t) } else x
-                    | none => pure ()
+                    -- the target is named through a shared cell: which node that is cannot be read off the text;
+                    -- the dependencies of this expert node are not followed any further
+                    | none => viaCell := en :: viaCell
                 | none => pure ()
               | .xInval eo => match sh.absOf eo with
                 | some en => wasInvalidated := en :: wasInvalidated
@@ -983,9 +991,9 @@ def holdsC14 (h : History) (tr : ImplTrace) : Verdict := Id.run do
           | some sn =>
             let childSnaps := x.deps.map fun (_, c, _) => rec_.snapOf c
             let allValid := childSnaps.all fun o => match o with | some c => c.valid | none => false
-            if !sn.valid && allValid && !(wasInvalidated.contains x.node) then
+            if !sn.valid && allValid && !(wasInvalidated.contains x.node) && !(viaCell.contains x.node) then
               return some s!"action {idx}: expert node n{x.node} became invalid although all its dependencies are valid"
-            if sn.valid && sn.nec && allValid && exactCutoffs then
+            if sn.valid && sn.nec && allValid && exactCutoffs && !(viaCell.contains x.node) then
               let m : Int := x.f / 10
               let vals : List (Option Int) := (x.deps.zip childSnaps).map fun ((_, _, cb), o) =>
                 if x.f % 10 == 1 && !cb then some 0
